@@ -532,6 +532,17 @@ def site_of(op: list, outcome: str) -> str | None:
     return None
 
 
+def site_candidates(op: list, outcome: str) -> list[str]:
+    """All known sites an oracle failure at this op may stem from (composite calls reach several)."""
+    k = site_of(op, outcome)
+    out = [k] if k else []
+    if op[0] == "X_ConvReplaceAllUses" and outcome != "ok" and op[3]:
+        out.append("io-setitem-rejected-disowns")
+    if op[0] == "X_ConvReplaceNodesAndValues" and outcome != "ok":
+        out += ["io-setitem-rejected-disowns", "graph-insert-partial"]
+    return out
+
+
 # --------------------------------------------------------------------------- running a history
 
 def run_history(ops: list[list], use_functions: bool = False, stop_on_hit: bool = True) -> dict:
@@ -1283,10 +1294,11 @@ def run_check(ck, which: str) -> None:  # noqa: C901, PLR0912, PLR0915
 
     def report(ops, idx, step, hit_step):
         fails = step[which]
-        key = site_of(hit_step["op"], hit_step["outcome"]) if hit_step is not None else None
-        if key is not None and key in known_keys:
-            ck.known_finding(key, what[key])
-            return
+        cands = site_candidates(hit_step["op"], hit_step["outcome"]) if hit_step is not None else []
+        for key in cands:
+            if key in known_keys:
+                ck.known_finding(key, what[key])
+                return
         sig = step["op"][0] + ":" + step["outcome"] + ":" + fails[0][:40]
         if sig in reported:
             return
@@ -1329,7 +1341,7 @@ def run_check(ck, which: str) -> None:  # noqa: C901, PLR0912, PLR0915
             g = Gen(rng, use_functions=(i % 2 == 0), site_rate=0.0)
             st = g.history(rng.randrange(5, 61))["steps"]
             ck.count(len(st))
-            if st and st[-1][which] and site_of(st[-1]["op"], st[-1]["outcome"]) not in known_keys:
+            if st and st[-1][which] and not (set(site_candidates(st[-1]["op"], st[-1]["outcome"])) & known_keys):
                 report([s["op"] for s in st], len(st) - 1, st[-1], None)
                 break
 
